@@ -1347,7 +1347,8 @@ OBLIGATIONS = {
             ("gen", "JoinOutput::expand_process_expr")],
     "C08": [("gen", "JoinOutput::generate_step_branch"), ("sep", "is_block_expr"), ("steps", "JoinOutput::generate_thread_builders_and_spawn_joiners"), ("steps", "JoinOutput::generate_step_tail"), ("steps", "lemma_concat_all"),
             ("core", "construct_thread_builder_name"), ("core", "construct_thread_builder_fn_name")],
-    "C18": [("core", "ExprGroup::application_type"), ("core", "ExprGroup::new"), ("core", "ActionGroup::new"), ("gen", "JoinOutput::split_branch_steps"), ("steps", "JoinOutput::generate_steps"), ("steps", "JoinOutput::generate_thread_builders_and_spawn_joiners"), ("steps", "JoinOutput::generate_step_tail")],
+    # a panic in a callback can only surface if the operator really emits the documented (callback-invoking) call
+    "C18": [("optable", "lemma_operator_tables"), ("core", "ProcessExpr::to_tokens"), ("core", "ErrExpr::to_tokens"), ("core", "ExprGroup::application_type"), ("core", "ExprGroup::new"), ("core", "ActionGroup::new"), ("gen", "JoinOutput::split_branch_steps"), ("steps", "JoinOutput::generate_steps"), ("steps", "JoinOutput::generate_thread_builders_and_spawn_joiners"), ("steps", "JoinOutput::generate_step_tail")],
     "C05": [("top", "generate_join"), ("top", "JoinOutput::new"), ("steps", "JoinOutput::join_steps"), ("steps", "lemma_join_comma"), ("steps", "lemma_count_take_step"), ("gen", "JoinOutput::generate_results_transposer"), ("parse", "parse_until_suffix"), ("parse", "ActionGroup::parse_stream"),
             ("core", "ActionGroup::to_wrapper_action_expr"), ("core", "ActionGroup::new"), ("core", "ExprGroup::application_type")],
     "C12": [("sep", "JoinOutput::separate_block_expr_process"), ("sep", "JoinOutput::separate_block_expr_err"), ("sep", "JoinOutput::separate_block_expr_initial"), ("sep", "lemma_sep_step"), ("steps", "JoinOutput::join_steps"), ("steps", "lemma_join_comma"), ("steps", "lemma_count_take_step"), ("builder", "ActionExprChainBuilder::build_from_parse_stream"), ("gen", "JoinOutput::branch_result_name"), ("gen", "JoinOutput::branch_result_pat")],
